@@ -8,6 +8,7 @@
 #include <eventpp/callbacklist.h>
 #include <eventpp/eventqueue.h>
 #include <eventpp/hetercallbacklist.h>
+#include <eventpp/hetereventqueue.h>
 #include <eventpp/mixins/mixinfilter.h>
 #include <eventpp/utilities/scopedremover.h>
 #include <eventpp/utilities/counterremover.h>
@@ -80,6 +81,7 @@ using CL = eventpp::CallbackList<void(int)>;
 struct QPol { using Mixins = eventpp::MixinList<eventpp::MixinFilter>; };
 using Queue = eventpp::EventQueue<int, void(const Payload &), QPol>;
 using HCL = eventpp::HeterCallbackList<eventpp::HeterTuple<void(int), void(const Payload &)>>;
+using HQ = eventpp::HeterEventQueue<int, eventpp::HeterTuple<void(const Payload &), void(int)>>;
 
 struct Rng { unsigned long long s; unsigned next() { s = s * 6364136223846793005ULL + 1442695040888963407ULL; return (unsigned)(s >> 33); } };
 
@@ -89,6 +91,7 @@ struct World {
 	std::vector<CL::Handle> h;
 	Queue q;
 	HCL hl, hother;
+	HQ hq;
 	std::unique_ptr<eventpp::ScopedRemover<CL>> rem;
 	std::vector<std::string> trace;
 
@@ -117,6 +120,14 @@ struct World {
 		}
 		rem.reset(new eventpp::ScopedRemover<CL>(list));
 		if(r.next() % 2) rem->append(Cb(50));
+		// heterogeneous queue: listeners of both prototypes, pending events of both prototypes, maybe a recycled slot
+		hq.appendListener(1, PCb(70));
+		if(r.next() % 2) hq.appendListener(1, Cb(71));
+		{
+			int nh = r.next() % 4;
+			for(int i = 0; i < nh; ++i) { if(r.next() % 2) hq.enqueue(1, Payload(40 + i)); else hq.enqueue(1, 80 + i); }
+			if(nh > 1 && r.next() % 2) hq.processOne();
+		}
 	}
 
 	std::string dump() {
@@ -142,6 +153,24 @@ struct World {
 		hl.forEach<void(int)>([&](const std::function<void(int)> & cb) { ++hn; hids += "," + std::to_string(cb.target<Cb>() ? cb.target<Cb>()->id : -1); });
 		hids += ";";
 		hl.forEach<void(const Payload &)>([&](const std::function<void(const Payload &)> & cb) { ++hn; hids += "," + std::to_string(cb.target<PCb>() ? cb.target<PCb>()->id : -1); });
+		// heterogeneous queue: listeners per prototype, pending events (prototype index : value), counters
+		{
+			std::string hs = " | HQ:";
+			hq.forEach<void(const Payload &)>(1, [&hs](const std::function<void(const Payload &)> & cb) { hs += " " + std::to_string(cb.target<PCb>() ? cb.target<PCb>()->id : -1); });
+			hs += " ;";
+			hq.forEach<void(int)>(1, [&hs](const std::function<void(int)> & cb) { hs += " " + std::to_string(cb.target<Cb>() ? cb.target<Cb>()->id : -1); });
+			hs += " | hpending:";
+			for(auto it = hq.queueList.begin(); it != hq.queueList.end(); ++it) {
+				if(it->empty()) { hs += " <empty-slot>"; continue; }
+				const auto & b = it->template get<HQ::QueuedItemBase>();
+				if(b.callableIndex == 0) hs += " P" + std::to_string(std::get<0>(it->template get<HQ::QueuedItem<std::tuple<Payload>>>().arguments).v);
+				else hs += " I" + std::to_string(std::get<0>(it->template get<HQ::QueuedItem<std::tuple<int>>>().arguments));
+			}
+			bool hfreeBad = false;
+			for(auto it = hq.freeList.begin(); it != hq.freeList.end(); ++it) if(!it->empty()) hfreeBad = true;
+			hs += std::string(" | hec=") + std::to_string((int)hq.queueEmptyCounter.load()) + " hempty=" + (hq.emptyQueue() ? "1" : "0") + (hfreeBad ? " HFREE-SLOT-OCCUPIED" : "");
+			s += hs;
+		}
 		s += " | HL=" + std::to_string(hn) + hids + " | remItems=" + std::to_string(rem ? rem->itemList.size() : 0);
 		return s;
 	}
@@ -159,6 +188,9 @@ struct World {
 			s += std::string(" empty=") + (q.emptyQueue() ? "1" : "0");
 			s += std::string(" waitFor=") + (q.waitFor(std::chrono::milliseconds(0)) ? "1" : "0");
 			hl(3);
+			hq.enqueue(1, Payload(98));
+			s += std::string(" hprocess=") + (hq.process() ? "1" : "0");
+			s += std::string(" hempty=") + (hq.emptyQueue() ? "1" : "0");
 		}
 		catch(...) { s += " FOLLOWUP-THREW"; }
 		g_trace = nullptr;
@@ -190,6 +222,16 @@ static std::vector<Op> catalogue() {
 		{ "rem.append", true, [](World & w) { Cb c(65); w.rem->append(c); } },
 		{ "counter.append", true, [](World & w) { Cb c(66); eventpp::counterRemover(w.list).append(c, 2); } },
 		{ "conditional.append", true, [](World & w) { Cb c(67); eventpp::conditionalRemover(w.list).append(c, []() { return false; }); } },
+		{ "q.prependListener", true, [](World & w) { PCb c(69); w.q.prependListener(1, c); } },
+		{ "q.processUntil", false, [](World & w) { g_trace = &w.trace; w.q.processUntil([](const Payload & p) { point(K_PRED); return p.v % 3 == 0; }); g_trace = nullptr; } },
+		{ "q.takeEvent", false, [](World & w) { Queue::QueuedEvent ev; w.q.takeEvent(&ev); } },
+		{ "q.clearEvents", false, [](World & w) { w.q.clearEvents(); } },
+		{ "hq.appendListener", true, [](World & w) { PCb c(72); w.hq.appendListener(1, c); } },
+		{ "hq.enqueue", true, [](World & w) { Payload p(58); w.hq.enqueue(1, p); } },
+		{ "hq.enqueueTemp", true, [](World & w) { w.hq.enqueue(1, Payload(59)); } },
+		{ "hq.process", false, [](World & w) { g_trace = &w.trace; w.hq.process(); g_trace = nullptr; } },
+		{ "hq.processOne", false, [](World & w) { g_trace = &w.trace; w.hq.processOne(); g_trace = nullptr; } },
+		{ "hq.processIf", false, [](World & w) { g_trace = &w.trace; w.hq.processIf([](const Payload & p) { point(K_PRED); return p.v % 2 == 0; }); g_trace = nullptr; } },
 		{ "hl.append", true, [](World & w) { Cb c(68); w.hl.append(c); } },
 		{ "hl.assign", true, [](World & w) { w.hl = w.hother; } },
 	};
